@@ -951,8 +951,10 @@ impl<'a> Parser<'a> {
             self.begin_scope();
             self.block();
             self.end_scope();
-            self.emit_byte(OpCode::EndFinally as u8);
         }
+        // Always emitted: a `return` inside the try block resumes from here (JumpFinally), with or
+        // without a finally block.
+        self.emit_byte(OpCode::EndFinally as u8);
 
         if !have_catch && !have_finally {
             self.error("Expected 'catch' or 'finally' after 'try' block.");
